@@ -251,6 +251,27 @@ def case_index(ctx, cfg):
                 return
             if not check_elem(el, t, how):
                 return
+    # expand_dims: a new collection axis of length one at every admissible position (positive and negative form); the
+    # elements behind it are unchanged
+    nfree = len(shape)
+    rank = np.asarray(coll.array).ndim
+    for a in list(range(nfree + 1)) + [a - (rank + 1) for a in range(nfree + 1)]:
+        ce, e = ctx.call(coll.expand_dims, a)
+        ctx.trace()
+        pos = a if a >= 0 else a + rank + 1
+        want_shape = shape[:pos] + (1,) + shape[pos:]
+        if e is not None or type(ce) is not type(coll) or np.asarray(ce.array).shape[: nfree + 1] != want_shape or ce.free_indices != coll.free_indices + 1:
+            ctx.fail(f"expand_dims:{type(coll).__name__}:{type(e).__name__ if e is not None else 'shape-or-class'}", "expand_dims", {"kind": kind, "shape": shape, "axis": a}, list(want_shape), e if e is not None else [type(ce).__name__, list(np.asarray(ce.array).shape), ce.free_indices])
+            return
+        for t, idx in enumerate(np.ndindex(*shape)):
+            ix = idx[:pos] + (0,) + idx[pos:]
+            el, e = ctx.call(lambda: ce[ix])
+            ctx.trace()
+            if e is not None:
+                ctx.fail(f"expand_dims:{type(coll).__name__}:index:{type(e).__name__}", "expand_dims(a)[i]", {"kind": kind, "shape": shape, "axis": a, "index": ix}, "element", e)
+                return
+            if not check_elem(el, t, f"expand_dims({'neg' if a < 0 else 'pos'})[i]"):
+                return
     # iteration
     it, e = ctx.call(lambda: list(coll))
     ctx.trace()
